@@ -11,8 +11,10 @@ import ReuseVerif.Lemmas.ReadBack
 import ReuseVerif.Lemmas.C10MultiReadBack
 import ReuseVerif.Lemmas.C10Locator
 import ReuseVerif.Theorems.C08
+import ReuseVerif.Theorems.C20
+import ReuseVerif.Lemmas.C10OrderAnnotate
 namespace C10
-open Py Model Spec C08L C10L
+open Py Model Spec C08L C10L C10Order
 
 /-- the three parts `firstRunParts` names are what the run writes -/
 theorem C10_first_run {c : HdrCfg} {info : Extracted} {t a hdr b : Text}
@@ -373,6 +375,274 @@ example : ∃ s ∈ Generated.styles, s.name = "TexCommentStyle" ∧ ¬ ShebangF
   decide +kernel
 example : multiMode (⟨"X", "x", "#".toList, none, " ".toList, [], [], [], [], [], [], []⟩ : Generated.Style) false = false := by decide
 example : belowOf "x\n".toList false = "\nx\n".toList ∧ aboveOf "#!/bin/sh\n".toList = "#!/bin/sh\n\n".toList := by decide
+
+/-! ### the order of the requested sets
+
+The requested copyright lines, contributor lines and licence expressions are Python `set`s; their iteration
+order differs between processes (string hash seed).  In the model they are lists.  The theorems below say that
+what is written depends on the *members* only: a second run in another process hands `create_header` another
+order of the same sets, and the idempotence theorems above — stated for one fixed list order — carry over.
+(Same statement that C14 rests on for the annotate side: results do not depend on the hash seed.) -/
+
+/-- **Python's `<` on `str` (code point order) is a strict total order** on texts: irreflexive, transitive,
+    and two texts neither of which is below the other are equal. -/
+theorem C10_text_order :
+    (∀ a : Text, textLt a a = false) ∧
+    (∀ a b c : Text, textLt a b = true → textLt b c = true → textLt a c = true) ∧
+    (∀ a b : Text, textLt a b = false → textLt b a = false → a = b) :=
+  ⟨textLt_irrefl, fun _ _ _ => textLt_trans, fun _ _ => textLt_trichotomy⟩
+
+/-- **`sorted(...)` is a function of the multiset.**  Permutations of one list sort to the same list. -/
+theorem C10_sorted_order {l₁ l₂ : List Text} (h : l₁.Perm l₂) : sortTexts l₁ = sortTexts l₂ :=
+  sortTexts_perm_eq h
+
+/-- … namely to *the* ascending permutation of the input: the result is a permutation of the input, ascending
+    in code point order, and the only such list. -/
+theorem C10_sorted_spec (l : List Text) :
+    (sortTexts l).Perm l ∧ (sortTexts l).Pairwise (fun a b => textLt b a = false) ∧
+    ∀ s : List Text, s.Perm l → s.Pairwise (fun a b => textLt b a = false) → sortTexts l = s :=
+  ⟨sortTexts_perm l, sortTexts_sorted l, fun _ hp hs => sortTexts_unique hp hs⟩
+
+/-- **`_create_new_header` does not depend on the order of the three sets.**  For every configuration (style,
+    template, options): two requests whose sections are pairwise permutations of each other give the same
+    result — the same header text, or the same refusal. -/
+theorem C10_new_header_order (c : HdrCfg) {i j : Extracted} (hc : i.cpr.Perm j.cpr) (hn : i.con.Perm j.con)
+    (hl : i.lic.Perm j.lic) : createNewHeader c i = createNewHeader c j :=
+  createNewHeader_perm c hc hn hl
+
+/-- **`merge_copyright_lines` does not depend on the order of the set.**  It iterates over `sorted(...)`
+    (fixes/c10-merge-order.diff), so permutations of one list — two iteration orders of one set — merge to the
+    same list, ties or not. -/
+theorem C10_merge_order {l₁ l₂ : List Text} (h : l₁.Perm l₂) : mergeLines l₁ = mergeLines l₂ :=
+  mergeLines_perm_eq h
+
+/-- the same as `C10_merge_order`, spelled with the sort (how the repair was proposed) -/
+theorem C10_merge_sorted_order {l₁ l₂ : List Text} (h : l₁.Perm l₂) :
+    mergeLinesWith Generated.endRe (sortTexts l₁) = mergeLinesWith Generated.endRe (sortTexts l₂) :=
+  mergeLines_perm_eq h
+
+/-- **`create_header` does not depend on the order of the requested sets**, with and without
+    `--merge-copyrights`.  For every configuration, every existing header text (also none): requests that are
+    permutations of each other give the same result. -/
+theorem C10_header_order (c : HdrCfg) {i j : Extracted} (header : Text)
+    (hc : i.cpr.Perm j.cpr) (hn : i.con.Perm j.con) (hl : i.lic.Perm j.lic) :
+    createHeader c i header = createHeader c j header :=
+  createHeader_order c header ⟨hc, hn, hl⟩
+
+/-- … in the form "the same sets": duplicate-free lists with the same members. -/
+theorem C10_header_order_sets (c : HdrCfg) {i j : Extracted} (header : Text)
+    (hc : ∀ x, x ∈ i.cpr ↔ x ∈ j.cpr) (hn : ∀ x, x ∈ i.con ↔ x ∈ j.con) (hl : ∀ x, x ∈ i.lic ↔ x ∈ j.lic)
+    (di : i.cpr.Nodup ∧ i.con.Nodup ∧ i.lic.Nodup) (dj : j.cpr.Nodup ∧ j.con.Nodup ∧ j.lic.Nodup) :
+    createHeader c i header = createHeader c j header :=
+  createHeader_order c header (.of_sameMembers hc hn hl di dj)
+
+/-- … and when a header exists the requests need not even be duplicate-free: `create_header` forms unions with
+    what the header declares, so only the members count. -/
+theorem C10_header_order_old_sets (c : HdrCfg) {i j : Extracted} {header : Text}
+    (hne : header ≠ [])
+    (hc : ∀ x, x ∈ i.cpr ↔ x ∈ j.cpr) (hn : ∀ x, x ∈ i.con ↔ x ∈ j.con) (hl : ∀ x, x ∈ i.lic ↔ x ∈ j.lic) :
+    createHeader c i header = createHeader c j header :=
+  createHeader_sameMembers_old c (by cases header <;> simp_all) hc hn hl
+
+/-! #### why the sort is needed: the loop of `merge_copyright_lines` on an unsorted input
+
+`mergeLinesWith` is the loop on the lines in the order in which they are met — until the repair, the iteration
+order of the set. -/
+
+/-- **The loop on two orders of one set (partial: no ties).**  The merged lines are the same up to order when,
+    for every holder of the input, (i) all most frequent prefixes of the holder's lines lead to the same prefix text
+    (`TieFree`: e.g. the holder's lines carry one prefix, or one prefix is strictly most frequent) and (ii) no two
+    different year texts stated for the holder have the same numeric value (`YearsInj`: e.g. all years are four
+    ASCII digits) — `MergeStable`, a property of the set, decidable.
+    Full statement (FALSE in the model, and in the code before the repair, see `C10_merge_prefix_tie`): without `hs`. -/
+theorem C10_merge_order_partial (endRe : Re) {l₁ l₂ : List Text} (h : l₁.Perm l₂)
+    (hs : MergeStable (parseLines endRe l₁)) : (mergeLinesWith endRe l₁).Perm (mergeLinesWith endRe l₂) :=
+  mergeLinesWith_perm endRe h hs
+
+/-- the sufficient conditions named above -/
+theorem C10_merge_stable_of {parsed : List Parsed}
+    (hp : ∀ x ∈ parsed, (∀ a ∈ prefixesOf parsed x.1, ∀ b ∈ prefixesOf parsed x.1, a = b) ∨
+      ∃ m, ∀ p ∈ prefixesOf parsed x.1, p ≠ m → (prefixesOf parsed x.1).count p < (prefixesOf parsed x.1).count m)
+    (hy : ∀ x ∈ parsed, ∀ y ∈ yearsOf parsed x.1, asciiYear y = true) : MergeStable parsed := by
+  intro x hx
+  refine ⟨?_, yearsInj_of_ascii (hy x hx)⟩
+  rcases hp x hx with h | ⟨m, h⟩
+  · exact tieFree_of_one_prefix h
+  · exact tieFree_of_strict_max m h
+
+/-- **The negation witness: a prefix tie.**  One holder, one year, the prefixes `Copyright` and `©` once each:
+    the merged line carries the prefix of the line met first.  At the level of the parsed lines (closed terms), and
+    at the level of the lines for every END pattern for which `X` is a well-formed holder (`Notice.ok`, as in
+    `C20_merge_lines`).  Replayed against the code before the repair: `findings/C10-merge-order.json`. -/
+theorem C10_merge_prefix_tie :
+    [tieWord, tieSign].Perm [tieSign, tieWord] ∧
+    mergeParsed [tieWord, tieSign] = ["Copyright 2019 X".toList] ∧
+    mergeParsed [tieSign, tieWord] = ["© 2019 X".toList] ∧
+    ¬ MergeStable [tieWord, tieSign] := prefix_tie_witness
+
+theorem C10_merge_prefix_tie_lines (endRe : Re) (hX : WFHolderL endRe "X".toList = true) :
+    mergeLinesWith endRe ["Copyright 2019 X".toList, "© 2019 X".toList] = ["Copyright 2019 X".toList] ∧
+    mergeLinesWith endRe ["© 2019 X".toList, "Copyright 2019 X".toList] = ["© 2019 X".toList] := by
+  have hrb : ReadBack endRe := fun x hx y hy h hw hn => C20.C20_make_parse endRe x hx y hy h hw hn
+  let n1 : Notice := ⟨("Copyright".toList, CPat.word, []), .single "2019".toList, "X".toList⟩
+  let n2 : Notice := ⟨("©".toList, CPat.sign, []), .single "2019".toList, "X".toList⟩
+  have ok1 : n1.ok endRe := ⟨by simp [n1, prefixShapes], by decide, hX, by decide⟩
+  have ok2 : n2.ok endRe := ⟨by simp [n2, prefixShapes], by decide, hX, by decide⟩
+  have p12 := parseLines_notices endRe hrb [n1, n2] (by
+    intro n hn; simp only [List.mem_cons, List.not_mem_nil, or_false] at hn; rcases hn with rfl | rfl <;> assumption)
+  have p21 := parseLines_notices endRe hrb [n2, n1] (by
+    intro n hn; simp only [List.mem_cons, List.not_mem_nil, or_false] at hn; rcases hn with rfl | rfl <;> assumption)
+  have e12 : [n1, n2].map Notice.line = ["Copyright 2019 X".toList, "© 2019 X".toList] := by decide
+  have e21 : [n2, n1].map Notice.line = ["© 2019 X".toList, "Copyright 2019 X".toList] := by decide
+  rw [e12] at p12
+  rw [e21] at p21
+  rw [mergeLinesWith_eq, mergeLinesWith_eq, p12, p21]
+  exact ⟨by decide, by decide⟩
+
+/-- the hypothesis of `C10_merge_prefix_tie_lines` is satisfiable (an END pattern that only knows `}`) -/
+example : WFHolderL (Re.chr '}') "X".toList = true := by
+  have hbt : ∀ (c : Char) (cs : Text), c ≠ '}' → endAccepts (Re.chr '}') (c :: cs) = false := by
+    intro c cs h
+    have : ('}' == c) = false := by simpa using fun e : '}' = c => h e.symm
+    simp [endAccepts, Re.bt, this]
+  simp [WFHolderL, noEndSuffix, hbt, parenStart, hasTag, dashYear, isReSpace, isReDigit, Re.inRanges,
+    Generated.spaceRanges, Generated.digitRanges] <;> decide
+
+/-- the second kind of tie: the same year in two scripts (`int('2019') == int('２０１９')`) -/
+theorem C10_merge_year_tie :
+    mergeParsed [yearAscii, yearWide] = ["© 2019 X".toList] ∧
+    mergeParsed [yearWide, yearAscii] = ["© ２０１９ X".toList] ∧
+    ¬ MergeStable [yearAscii, yearWide] := year_tie_witness
+
+/-- with the sort both orders of the tie give the line of the prefix that sorts first (`C` before `©`) -/
+example : sortTexts ["© 2019 X".toList, "Copyright 2019 X".toList] = ["Copyright 2019 X".toList, "© 2019 X".toList] ∧
+    sortTexts ["Copyright 2019 X".toList, "© 2019 X".toList] = ["Copyright 2019 X".toList, "© 2019 X".toList] := by decide
+
+/-- kept from before the repair (`mergeLines` then was the loop on the unsorted input, and `hstable` — no ties
+    among the lines the merge step receives — was needed); superseded by `C10_header_order` -/
+theorem C10_header_order_merge_partial (c : HdrCfg) {i j : Extracted} (header : Text)
+    (hc : i.cpr.Perm j.cpr) (hn : i.con.Perm j.con) (hl : i.lic.Perm j.lic)
+    (_hstable : c.merge = true → MergeStable (parseLines Generated.endRe (cprInput i header))) :
+    createHeader c i header = createHeader c j header :=
+  C10_header_order c header hc hn hl
+
+/-! #### text and file level -/
+
+/-- **What `add_header_to_file` writes does not depend on the order of the requested sets.**  For every
+    configuration (with and without `--merge-copyrights`, `--no-replace`, `--skip-existing`), every file text (any
+    line ending, with or without byte order mark): requests that are permutations of each other give the same
+    outcome — the same text written, or skipped, or the same failure. -/
+theorem C10_annotate_order (c : HdrCfg) (replace skip : Bool) {i j : Extracted} (text : Text)
+    (hc : i.cpr.Perm j.cpr) (hn : i.con.Perm j.con) (hl : i.lic.Perm j.lic) :
+    annotateFile c replace skip i text = annotateFile c replace skip j text ∧
+    annotateText c replace skip i text = annotateText c replace skip j text :=
+  ⟨annotateFile_order c replace skip text ⟨hc, hn, hl⟩, annotateText_order c replace skip text ⟨hc, hn, hl⟩⟩
+
+/-- kept from before the repair; superseded by `C10_annotate_order` -/
+theorem C10_annotate_order_merge_partial (c : HdrCfg) (replace skip : Bool) {i j : Extracted} (text : Text)
+    (hc : i.cpr.Perm j.cpr) (hn : i.con.Perm j.con) (hl : i.lic.Perm j.lic)
+    (_hstable : c.merge = true →
+      MergeStable (parseLines Generated.endRe (cprInput i (headerSeen c replace (afterBom text))))) :
+    annotateFile c replace skip i text = annotateFile c replace skip j text :=
+  (C10_annotate_order c replace skip text hc hn hl).1
+
+/-- **Idempotence across processes.**  Under the hypotheses of `C10_idem_partial2` as they are (stated for one
+    list order `info` of the requested sets; with or without `--merge-copyrights`): every sequence of one or more
+    runs, *each handing `create_header` its own order of the same sets* (`j`, then `js`), gives what one run with
+    `info` gives.  In particular a second run in a process with another hash seed changes nothing. -/
+theorem C10_idem_any_order {c : HdrCfg} {info : Extracted} {t a hdr b : Text} (hs : c.style ∈ Generated.styles)
+    (he : c.style.isEmptyStyle = false) (hcom : c.commented = false)
+    (h1 : firstRunParts c info t = some (a, hdr, b)) (hno : NoExoticBreaks hdr)
+    (hb : multiMode c.style c.forceMulti = true ∨ b = [] ∨ ∃ r, b = '\n' :: r)
+    (htex : startsWith hdr "% !TEX".toList = false)
+    (hinfo : containsReuseInfo c.parses hdr = true)
+    (habove : nothingAbove c a (hdr ++ '\n' :: b) = true)
+    (hrepro : createHeader c info (hdr ++ ['\n']) = .ok hdr)
+    (j : Extracted) (js : List Extracted)
+    (hj : PermInfo info j) (hjs : ∀ k ∈ js, PermInfo info k) :
+    runsSeq c (j :: js) t = .ok (a ++ hdr ++ ['\n'] ++ b) :=
+  runsSeq_fix c (C10_first_run h1)
+    (C10_second_run_partial h1 (C10_second_run_ok hs he hcom h1 hno hb htex hinfo habove hrepro))
+    j js hj hjs
+
+/-- kept from before the repair (`hst1`, `hst2`: no ties among the lines the merge step receives in the first and
+    in the later runs); superseded by `C10_idem_any_order` -/
+theorem C10_idem_any_order_merge_partial {c : HdrCfg} {info : Extracted} {t a hdr b : Text}
+    (hs : c.style ∈ Generated.styles)
+    (he : c.style.isEmptyStyle = false) (hcom : c.commented = false)
+    (h1 : firstRunParts c info t = some (a, hdr, b)) (hno : NoExoticBreaks hdr)
+    (hb : multiMode c.style c.forceMulti = true ∨ b = [] ∨ ∃ r, b = '\n' :: r)
+    (htex : startsWith hdr "% !TEX".toList = false)
+    (hinfo : containsReuseInfo c.parses hdr = true)
+    (habove : nothingAbove c a (hdr ++ '\n' :: b) = true)
+    (hrepro : createHeader c info (hdr ++ ['\n']) = .ok hdr)
+    (_hst1 : c.merge = true → MergeStable (parseLines Generated.endRe (cprInput info (replaceSections c t).2.1)))
+    (_hst2 : c.merge = true → MergeStable (parseLines Generated.endRe
+      (cprInput info (replaceSections c (a ++ hdr ++ ['\n'] ++ b)).2.1)))
+    (j : Extracted) (js : List Extracted) (hj : PermInfo info j) (hjs : ∀ k ∈ js, PermInfo info k) :
+    runsSeq c (j :: js) t = .ok (a ++ hdr ++ ['\n'] ++ b) :=
+  C10_idem_any_order hs he hcom h1 hno hb htex hinfo habove hrepro j js hj hjs
+
+/-- `runsSeq` with one order throughout is `runs` -/
+theorem C10_runs_seq_same (c : HdrCfg) (i : Extracted) (n : Nat) (t : Text) :
+    runsSeq c (List.replicate n i) t = runs c i n t := runsSeq_replicate c i n t
+
+/-- **Idempotence across processes at the level of the file** (`add_header_to_file`; hypotheses of
+    `C10_idem_text_partial2` as they are): the first run with order `j` and the second run with order `k` of the
+    same sets write the same characters, for the LF file and for its CRLF form. -/
+theorem C10_idem_text_any_order {c : HdrCfg} {info : Extracted} {t a hdr b : Text} (hs : c.style ∈ Generated.styles)
+    (he : c.style.isEmptyStyle = false) (hcom : c.commented = false)
+    (h1 : firstRunParts c info t = some (a, hdr, b)) (hno : NoExoticBreaks hdr)
+    (hb : multiMode c.style c.forceMulti = true ∨ b = [] ∨ ∃ r, b = '\n' :: r)
+    (htex : startsWith hdr "% !TEX".toList = false)
+    (hinfo : containsReuseInfo c.parses hdr = true)
+    (habove : nothingAbove c a (hdr ++ '\n' :: b) = true)
+    (hrepro : createHeader c info (hdr ++ ['\n']) = .ok hdr)
+    (hcr : NoCR t) (hcr' : NoCR (a ++ hdr ++ ['\n'] ++ b))
+    {j k : Extracted} (hj : PermInfo info j) (hk : PermInfo info k) :
+    (annotateText c true false j t = .written (a ++ hdr ++ ['\n'] ++ b) ∧
+     annotateText c true false k (a ++ hdr ++ ['\n'] ++ b) = .written (a ++ hdr ++ ['\n'] ++ b)) ∧
+    ('\n' ∈ t →
+      annotateText c true false j (toCRLF t) = .written (toCRLF (a ++ hdr ++ ['\n'] ++ b)) ∧
+      annotateText c true false k (toCRLF (a ++ hdr ++ ['\n'] ++ b)) = .written (toCRLF (a ++ hdr ++ ['\n'] ++ b))) := by
+  have base := C10_idem_text_partial2 hs he hcom h1 hno hb htex hinfo habove hrepro hcr hcr'
+  have ej : ∀ u, annotateText c true false j u = annotateText c true false info u := fun u =>
+    (annotateText_order c true false u hj).symm
+  have ek : ∀ u, annotateText c true false k u = annotateText c true false info u := fun u =>
+    (annotateText_order c true false u hk).symm
+  simp only [ej, ek]
+  exact base
+
+/-! non-vacuity: two orders of one request with two lines per section -/
+
+def orderA : Extracted :=
+  ⟨["MIT".toList, "Apache-2.0".toList],
+   ["SPDX-FileCopyrightText: 2019 Jane Doe".toList, "SPDX-FileCopyrightText: 2020 Acme Ltd.".toList],
+   ["Ann".toList, "Bob".toList]⟩
+def orderB : Extracted :=
+  ⟨["Apache-2.0".toList, "MIT".toList],
+   ["SPDX-FileCopyrightText: 2020 Acme Ltd.".toList, "SPDX-FileCopyrightText: 2019 Jane Doe".toList],
+   ["Bob".toList, "Ann".toList]⟩
+
+example : PermInfo orderA orderB ∧ orderA ≠ orderB := ⟨⟨by decide, by decide, by decide⟩, by decide⟩
+example : orderA.cpr.Nodup ∧ orderA.con.Nodup ∧ orderA.lic.Nodup ∧ ∀ x, x ∈ orderA.lic ↔ x ∈ orderB.lic := by
+  refine ⟨by decide, by decide, by decide, fun x => ?_⟩
+  simp [orderA, orderB, or_comm]
+example : sortTexts orderA.lic = ["Apache-2.0".toList, "MIT".toList] ∧ sortTexts orderB.lic = sortTexts orderA.lic ∧
+    sortTexts orderA.cpr = sortTexts orderB.cpr ∧ sortTexts orderA.con = ["Ann".toList, "Bob".toList] := by decide
+/-- upper case before lower case, ASCII before the rest: code point order, not alphabetical order -/
+example : sortTexts ["b".toList, "B".toList, "©".toList, "a".toList, "".toList] =
+    ["".toList, "B".toList, "a".toList, "b".toList, "©".toList] := by decide
+/-- `MergeStable` is satisfiable with several lines, prefixes and years of one holder (two lines with `©`, one
+    with `Copyright`: `©` is strictly most frequent) — and `C10_merge_stable_of` applies to it -/
+example : MergeStable [("X".toList, ["2019".toList], "©".toList), ("X".toList, ["2021".toList, "2016".toList], "©".toList),
+    ("X".toList, [], "Copyright".toList), ("Y".toList, ["2020".toList], "Copyright".toList)] := by decide
+example : mergeParsed [("X".toList, ["2019".toList], "©".toList), ("X".toList, ["2021".toList, "2016".toList], "©".toList),
+    ("X".toList, [], "Copyright".toList), ("Y".toList, ["2020".toList], "Copyright".toList)] =
+    ["© 2016 - 2021 X".toList, "Copyright 2020 Y".toList] := by decide
+/-- a tie between two prefixes outside the table does not matter (both are written as the `spdx` text) -/
+example : TieFree ["Copyright  (C)".toList, "Copyright  ©".toList] := by decide
+example : afterBom (bomChar :: "x".toList) = "x".toList ∧ afterBom "x".toList = "x".toList := by decide
 
 /-! ### non-vacuity
 
